@@ -5,6 +5,7 @@ use crate::gen::{case_strategy, NameProfile, Profile};
 use crate::ops::*;
 use crate::props::hist::history_report;
 use crate::runner::*;
+use proptest::strategy::BoxedStrategy;
 use serde_json::Value;
 
 fn oracles() -> Oracles {
@@ -40,8 +41,51 @@ fn report(c: &Case) -> CaseReport {
     history_report(c, oracles(), nontrivial)
 }
 
+/// Focused sub-strategy: n sibling streams inserted in a random order (so the sibling tree
+/// takes every shape), handles opened on some of them, then removals of the others
+/// interleaved with handle operations and creations that reuse the freed slots.
+fn focus_case(tier: Tier) -> BoxedStrategy<Case> {
+    use crate::gen::*;
+    use proptest::collection::vec;
+    use proptest::prelude::*;
+    let names = ["m", "d", "t", "b", "f", "p", "w", "a", "c", "e", "g", "n", "r", "v", "y"];
+    let slot = 0u8..3;
+    let step = prop_oneof![
+        6 => pick_path(PickKind::Stream, 0).prop_map(|p| Op::RemoveStream { p }),
+        3 => (slot.clone(), data_strategy(3000)).prop_map(|(slot, data)| Op::HWriteAll { slot, data }),
+        2 => (slot.clone(), data_strategy(3000)).prop_map(|(slot, data)| Op::HWrite { slot, data }),
+        3 => (slot.clone(), size_strategy(3000)).prop_map(|(slot, n)| Op::HRead { slot, n }),
+        2 => (slot.clone(), seek_strategy()).prop_map(|(slot, s)| Op::HSeek { slot, s }),
+        1 => (slot.clone(), len_spec(5000)).prop_map(|(slot, len)| Op::HSetLen { slot, len }),
+        2 => slot.clone().prop_map(|slot| Op::HFlush { slot }),
+        1 => slot.clone().prop_map(|slot| Op::HReadToEnd { slot }),
+        3 => (new_path(0), data_strategy(5000)).prop_map(|(p, data)| Op::CreateStream { p, data }),
+        1 => new_path(0).prop_map(|p| Op::CreateStorage { p }),
+        1 => (pick_path(PickKind::Stream, 0), len_spec(5000)).prop_map(|(p, len)| Op::SetLen { p, len }),
+        1 => Just(Op::Walk),
+    ];
+    let n_steps = if tier == Tier::Thorough { 50 } else { 25 };
+    (proptest::sample::select(vec![3u8, 4]), proptest::sample::select(vec![None, Some(1024u32)]), 4usize..=names.len(), vec(any::<u16>(), names.len()), vec(any::<u16>(), 3), vec(step, 5..=n_steps))
+        .prop_map(move |(version, max_buf, n, keys, opens, steps)| {
+            let mut order: Vec<usize> = (0..n).collect();
+            order.sort_by_key(|&i| keys[i]);
+            let mut ops = Vec::new();
+            for &i in order.iter() {
+                ops.push(Op::CreateStream { p: PathSpec::Raw(format!("/{}", names[i])), data: DataSpec { len: 30 + 97 * i as u32, seed: i as u8 } });
+            }
+            for (s, &o) in opens.iter().enumerate() {
+                ops.push(Op::HOpen { slot: s as u8, p: PathSpec::Pick { kind: PickKind::Stream, idx: o, spell: Spell::default() } });
+            }
+            ops.extend(steps);
+            Case { version, max_buf, start: Start::Fresh, pool: vec!["new1".into(), "zz".into(), "k".into(), "new22".into()], ops }
+        })
+        .boxed()
+}
+
 fn worker(ctx: &Ctx) -> WorkerResult {
-    run_worker(ctx, case_strategy(&profile(ctx.tier), false), report)
+    use proptest::prelude::*;
+    let strat = prop_oneof![2 => case_strategy(&profile(ctx.tier), false), 3 => focus_case(ctx.tier)].boxed();
+    run_worker(ctx, strat, report)
 }
 
 fn solo(v: &Value) -> Result<CaseReport, String> {
